@@ -217,7 +217,35 @@ def recycle(F, R):
                 if 'unused_resource_producer' in (self_field_of_call(b, t, 0) or '')]
         ok = len(df) == 1 and len(push) == 1
         why = 'drain_filter / push into the unused ring not found once'
-        if ok:
+        if len(df) == 1 and not push:
+            # `drain_filter(test).for_each(|(_, resource)| producer.push(resource)..)`: the consumer visits every item the
+            # iterator yields; its closure pushes its argument's resource on every path and drops none
+            from ..rules import closure_args
+            fe = [(bb, t) for bb, t in b.calls() if (callee_path(t) or '').endswith('Iterator::for_each')
+                  and 'drain_filter(' in describe(b, t['args'][0], depth=5, at=bb)]
+            cl = [c for bb, t in fe for c in closure_args(F, b, t)]
+            if len(fe) == 1 and len(cl) == 1:
+                c = cl[0]
+                cp_ = [(x, t) for x, t in calls_to(c, 'rtrb::Producer::<T>::push', suffix=False)]
+                ok = len(cp_) == 1 and 'unused_resource_producer' in describe(c, cp_[0][1]['args'][0], depth=6, at=cp_[0][0])
+                why = 'the closure handed to for_each does not push into the unused ring once'
+                if ok:
+                    dv = describe(c, cp_[0][1]['args'][1], depth=5, at=cp_[0][0])
+                    params = [nm for l, nm in c.names.items() if 2 <= l <= c.arg_count]
+                    ok = (dv.endswith('.1') and dv.split('.')[0].strip('()* ') in ('_2',)) or dv in params or dv == '_2.1'
+                    why = 'the value pushed to the unused ring is %s, not the item handed to the closure' % dv[:100]
+                if ok:
+                    ok = must_pass(c, [0], returns(c), [cp_[0][0]]) and not c.in_loop(cp_[0][0])
+                    why = 'an item removed from the arena can leave the closure without being pushed to the unused ring'
+                drops = [x for x in range(c.n) if c.blocks[x]['term']['k'] == 'drop' and not c.blocks[x].get('cleanup')
+                         and c.blocks[x]['term']['pl']['ty'] in ('T', '(atomic_arena::Key, T)')]
+                if ok and drops:
+                    ok, why = False, 'the closure drops a resource (%s)' % c.where(drops[0])
+                R.check(ok, 'B.C08.recycle', 'ResourceStorage::remove_and_add', why, detail='drain_filter(..).for_each(|item| unused_resource_producer.push(item))', where=b.file)
+                df = None
+        if df is None:
+            pass
+        elif ok:
             from .c02 import loop_of
             L = loop_of(b, push[0][0])
             d = describe(b, push[0][1]['args'][1], depth=5, at=push[0][0])
@@ -243,7 +271,8 @@ def recycle(F, R):
                 if drops:
                     ok = False
                     why = 'the loop drops a resource (%s)' % b.where(drops[0])
-        R.check(ok, 'B.C08.recycle', 'ResourceStorage::remove_and_add', why, detail='drain_filter item -> unused_resource_producer.push', where=b.file)
+        if df is not None:
+            R.check(ok, 'B.C08.recycle', 'ResourceStorage::remove_and_add', why, detail='drain_filter item -> unused_resource_producer.push', where=b.file)
     u = F.body(SR + '::remove_unused')
     if R.check(u is not None, 'B.C08.recycle', 'anchor:SelfReferential', 'remove_unused not found'):
         rm = calls_to(u, 'atomic_arena::Arena::<T>::remove', suffix=False)
@@ -495,7 +524,8 @@ def storage_loops(F, R):
         v = F.inlined_view(st + '::remove_and_add', depth=1, pred=lambda hp: hp.startswith(st + '::')) or F.body(st + '::remove_and_add')
         if not R.check(v is not None, 'B.C08.loops', 'anchor:' + st.split('::')[-2], 'remove_and_add not found'):
             continue
-        pushes = [x for x, t in v.calls() if (callee_path(t) or '').endswith('rtrb::Producer::<T>::push')]
+        from ..rules import op_sites
+        pushes = op_sites(F, v, lambda p, t: p.endswith('rtrb::Producer::<T>::push'))
         pops = [x for x, t in v.calls() if (callee_path(t) or '').endswith('rtrb::Consumer::<T>::pop')]
         R.check(bool(pushes) and bool(pops) and order_ok(v, pushes, pops), 'B.C08.loops', st.split('::')[-2] + ':remove-then-add',
                 '%s::remove_and_add does not finish testing / removing what it holds before it takes new resources from the queue' % st,
